@@ -413,12 +413,16 @@ PROPS["C20"] = {
             "at every poll) over 2-8 simulated devices (coupler / digital in / digital out / CoE with 48-128 byte mailbox, mailbox "
             "answer delay 0-3 datagrams, SII chunk 4/8) in 2-3 groups (real init with group filter, real into_op), storage 2 (one "
             "slot per task) / 4 / 8 / 16 slots, per-frame latency 0-500 us in five distributions (zero, uniform, 0-or-500, "
-            "decreasing, mostly-fast), optional wire time, wait-loop delay 0/20/200 us; programs of 3-10 operations per task: "
+            "decreasing, mostly-fast), optional wire time, wait-loop delay 0/20/200 us; every 4th case has small frames (24-64 "
+            "data bytes) and big groups so that one tx_rx spans 2-5 frames (image chunks and state checks spill over) on mostly "
+            "exactly one slot per task; programs of 3-10 (every 8th case 8-30) operations per task: "
             "tx_rx of an own group with tagged changing outputs, input pokes, private and SHARED scratch register reads/writes, "
             "read-only registers of any device, SDO uploads (1-10 bytes: expedited and normal) and expedited downloads on owned CoE "
             "devices, EEPROM reads; compared: wire indices, admissibility, every operation result of every task, final images "
             "(model vs real), and independently: sequential oracle in segment order on an identically initialised segment, each "
-            "task alone (cases without shared registers), tag monitors, no-error monitor, every response accepted; "
+            "task alone (cases without shared registers), tag monitors, every response accepted, and the no-failure monitor: an "
+            "operation that fails with SwapState/timeout while fewer frames are IN FLIGHT (sent, response not yet delivered; "
+            "counted from the executor trace at the failing poll) than the storage holds is c20/spurious-swapstate|timeout; "
             "non-trivial = responses were delivered out of order with >= 2 frames in flight; distinct = distinct generator seed",
     "assumptions": [
         "cooperative single-threaded executor: code between awaits is atomic (OS-thread parallelism inside those sections is covered only through the micro-step model of C01/C02)",
